@@ -133,7 +133,7 @@ class C13(object):
     rule = ("one run = (image, variant dense|sparse, team 1..64, strategy random/pct/rtc/rr, seeded interleaving at "
             "instrumented-access granularity, garbage in labels/wrk/MV/iMV and on the stacks); distinct = distinct "
             "(image digest, team delivered, conflict signature = hash of the order of cross-thread accesses to "
-            "shared bytes); non-trivial = team >= 2 delivered (dense) or nnz >= 2 (sparse)")
+            "shared bytes); non-trivial = team >= 2 delivered (dense) or nnz >= 2 (sparse); also: a second simulated Python thread labelling another sparse frame, SparseScan.lmlabel scans relabelled with other options and compared with fresh objects, frame objects (and frames derived from them) labelled one after the other")
     components = {"real": enginea.COMPONENTS_REAL + ["localmaxlabel, neighbormax, sparse_localmaxlabel (machine code "
                                                        "of the -O2 build)"],
                   "stub": enginea.COMPONENTS_STUB}
